@@ -132,8 +132,11 @@ impl Prop for C10 {
           stmts.push(if *c > 0 && rng.chance(1, 2) { format!("{} := s{} + {}", v, *c - 1, val) } else { format!("{} := {}", v, val) });
           *c += 1;
         }
-        if failing && f == fail_at { let at = rng.below(stmts.len() as u64 + 1) as usize; stmts.insert(at, "oops := undefinedname + 1".to_string()); }
-        blocks.push(format!("```mech:{}\n{}\n```", name, stmts.join("\n")));
+        // the failing statement is of several kinds (errors with and without source tokens)
+        if failing && f == fail_at { let at = rng.below(stmts.len() as u64 + 1) as usize; stmts.insert(at, rng.pick(&["oops := undefinedname + 1", "oops := 1 + \"a\"", "oops := [1 2] + [1 2 3]", "oops := math/sin(\"a\")", "undefinedname = 3"]).to_string()); }
+        // one named fence in four is floated left or right (the float wrapper must not change what the fence does)
+        let float = match rng.below(8) { 0 => "<<: ", 1 => ":>> ", _ => "" };
+        blocks.push(format!("{}```mech:{}\n{}\n```", float, name, stmts.join("\n")));
         per_ns.entry(name).or_default().push(stmts);
       }
       let k = main.len(); let st = format!("m{} := {}", k, 100 + k); blocks.push(st.clone()); main.push(st);
